@@ -508,7 +508,7 @@ macro_rules! eps_seq_deep {
         }
     )*};
 }
-eps_seq_deep!(Option<u8>, Vec<u8>, Vec<u16>, String, E1, DT);
+eps_seq_deep!(Option<u8>, Vec<u8>, Vec<u16>, String, E1, DT, [Option<u8>; 0]);
 
 impl EpsCmp for String {
     fn eps_eq<'a>(d: &&'a str, v: &Self) -> bool {
